@@ -1,7 +1,7 @@
 #!/bin/sh
 # tools/seed_eval.sh <Cxx> <i> [extra check ids...]  verify a seed from /tmp/seed/out-<Cxx> and run the checks against it
 P=$1; I=$2; shift 2
-D=/tmp/seed/out-$P
+D=${SEEDBASE:-/tmp/seed}/out-$P
 DEMO=$(ls $D/demo${I}_test.go 2>/dev/null)
 PKG=$(grep -m1 -oE 'pkg/go/[a-z]+' $DEMO)
 RUN=$(grep -o 'func Test[A-Za-z0-9_]*' $DEMO | sed 's/func //' | tr '\n' '|' | sed 's/|$//')
